@@ -294,6 +294,14 @@ def runScan (kv : KV) : String :=
     match vmRun Guards.spec (getNat kv "S" defaultStackSize) 0 prog with
     | some _ => s!" OK S=OK S.res=q:{if allNonEmpty then 1 else 0} sane=1"
     | none => " OK S=EXEC_STACK_OVERFLOW sane=1"
+  | "rebound" =>
+    -- a regexp at a size boundary: rejected at compile time or compiled and scanned (the rule's condition is `$a or true`)
+    match parseRe (getD kv "ast" "").toList with
+    | some (r, []) =>
+      match emitCode Guards.spec (getNat kv "L" reMaxSplitId) r with
+      | .ok _ => " OK S=OK S.res=q:1 sane=1"
+      | .error e => s!" CERR:{errName e} sane=1"
+    | _ => " BADAST"
   | "timeout" => " OK S=SCAN_TIMEOUT sane=1"
   | _ => " UNMODELLED"
 
@@ -304,8 +312,24 @@ def handle (line : String) : String :=
     let body := match cmd with
       | "settimeout" =>
         " " ++ " ".intercalate (((getD kv "s" "0").splitOn ",").filterMap fun t => t.toInt?.map fun v => s!"{v}:{specTimeoutNs v}")
+      | "scanblocks" =>
+        -- virtual clock: block j (0-based) starts after j deliveries of `sleep_ms`; the clock is read at the start of every block
+        -- (byte position 0 is a multiple of the stride) and compared with the deadline
+        let n := getNat kv "nblocks" 0
+        let sl := getNat kv "sleep_ms" 0 * 1000000
+        let tmo := getNat kv "timeout" 1 * 1000000000
+        let hit := (List.range n).any fun j => (blockReads blockTimeoutStride 0 (getNat kv "bsize" 64) ≥ 1) && Guards.spec.blockExpired (j * sl) tmo
+        s!" OK S={if hit then "SCAN_TIMEOUT" else "OK"} sane=1"
       | "scanseq" =>
         -- one scanner, several scans; buffer 1 needs few fibers, buffer 2 more than the limit
+        if getD kv "m" "" == "tmmseq" then
+          -- every scan starts from `_yr_scanner_clean_matches` (all strings un-muted): each scan is independent of the ones before
+          let seq := (getD kv "seq" "1").splitOn ","
+          -- worst case before the scan: the string `idx` was muted by the previous one; the memset covers `nstr` strings
+          let muted := cleanDisabled (getNat kv "nstr" 1) (fun _ => true) (getNat kv "idx" 0)
+          let steps := seq.zipIdx.map fun (_, i) => s!"S{i + 1}=OK S{i + 1}.same={if muted then 0 else 1}"
+          " OK F1=OK F2=OK " ++ " ".intercalate steps ++ " sane=1"
+        else
         let MAX := getNat kv "L" reMaxFibers
         let needOf (w : String) : Nat := if w == "2" then getNat kv "need2" 0 else getNat kv "need1" 0
         let seq := (getD kv "seq" "1").splitOn ","
